@@ -30,14 +30,15 @@ func InBubble(f func()) {
 		}()
 		T.Run("bubble", func(t *testing.T) {
 			synctest.Test(t, func(t *testing.T) {
+				// let parked helper goroutines that wake on timers finish, also when f panicked
+				// (otherwise synctest's own "deadlock" panic would replace f's panic)
+				defer time.Sleep(40 * time.Second)
 				defer func() {
 					if e := recover(); e != nil {
 						inner = e
 					}
 				}()
 				f()
-				// let parked helper goroutines that wake on timers finish
-				time.Sleep(40 * time.Second)
 			})
 		})
 	}()
